@@ -95,6 +95,8 @@ type FnCtx struct {
 	errInit map[string]bool
 	ctVals map[string]Val
 	canonDone map[string]bool
+	byteDone map[string]bool
+	lastElemsSlice *smt.Term
 	ifaces map[string]types.Type
 	typeObjs map[string]types.Type
 	unboundLoops []string
@@ -174,6 +176,7 @@ func (fc *FnCtx) reset(dry bool) {
 	fc.errInit = map[string]bool{}
 	fc.ctVals = map[string]Val{}
 	fc.canonDone = map[string]bool{}
+	fc.byteDone = map[string]bool{}
 	fc.ifaces = map[string]types.Type{}
 	fc.typeObjs = map[string]types.Type{}
 	fc.constFieldsUsed = map[string]bool{}
@@ -598,6 +601,7 @@ func isByte(t types.Type) bool {
 
 // byteFacts states that every element of s is a byte.
 func (fc *FnCtx) byteFacts(s *smt.Term) {
+	s = fc.S.Name("bs", s)
 	i := smt.Const("i!b", smt.Int)
 	at := smt.SAt(s, i)
 	fc.S.Assert(smt.Forall([]*smt.Term{i}, smt.And(smt.Le(smt.IntLit(0), at), smt.Le(at, smt.IntLit(255))), []*smt.Term{at}), "")
